@@ -137,7 +137,7 @@ def grep_forbidden():
     return hits
 
 
-THEOREM_RE = re.compile(r'^(?:private\s+)?theorem\s+([^\s:({\[]+)', re.M)
+THEOREM_RE = re.compile(r'^theorem\s+([^\s:({\[]+)', re.M)   # `private theorem` = example helper, not a property theorem
 NAMESPACE_RE = re.compile(r'^namespace\s+(\S+)', re.M)
 
 
@@ -201,7 +201,8 @@ def build_and_audit(pid, extra_targets=()):
     audit = 'import %s\n' % prop_mod + ''.join('#print axioms %s\n' % t for t, _ in thms)
     apath = os.path.join(LEAN, 'PyCraft', 'Audit', '%s.lean' % pid)
     write_if_changed(apath, audit)
-    rc, out = _run(['lake', 'env', 'lean', apath], timeout=900)
+    with BuildLock():
+        rc, out = _run(['lake', 'env', 'lean', apath], timeout=900)
     if rc != 0:
         res['build_output'] = out[-4000:]
         for t, _ in thms:
